@@ -100,7 +100,8 @@ def check_call(cfg, call):
                       f"{last.obj} ({last.label})"))
         else:
             want_type = "TimeoutError" if last.label == "timeout" else "OpError"
-            if tname != want_type:
+            if tname != want_type and not (want_type == "OpError"
+                                           and tname in ("FalsyOpError", "OpRuntimeError")):
                 v.append(("c04.exception-type", f"raised type {tname}, original {want_type}"))
             raised_n = sum(1 for o in call.ops if o.obj == last.obj)
             if tb is None or not tb[0] or tb[1] != raised_n:
